@@ -24,6 +24,12 @@ func harnessf(format string, a ...interface{}) {
 	panic(HarnessError{fmt.Sprintf(format, a...)})
 }
 
+type instSeen struct {
+	gid int64
+	seq int
+	n   int
+}
+
 type park struct {
 	gid      int64
 	point    string
@@ -70,6 +76,9 @@ type Sched struct {
 	gseq     map[int64]int
 	spawnCnt map[string]int
 	events   []Event
+	// instFirst: who first mentioned an instance in an event, and when
+	// (gives unnamed instances a creation order independent of goroutine ids)
+	instFirst map[interface{}]instSeen
 
 	Step     int
 	MaxSteps int
@@ -112,6 +121,7 @@ func NewSched(t *Tape) *Sched {
 		gname:       map[int64]string{},
 		gseq:        map[int64]int{},
 		spawnCnt:    map[string]int{},
+		instFirst:   map[interface{}]instSeen{},
 		prio:        map[string]int{},
 		pctChange:   map[int]bool{},
 		MaxSteps:    20000,
@@ -172,6 +182,11 @@ func (s *Sched) Emit(kind string, inst interface{}, oid string, a ...interface{}
 	now := time.Since(s.Start)
 	s.mu.Lock()
 	s.gseq[g]++
+	if inst != nil {
+		if _, ok := s.instFirst[inst]; !ok {
+			s.instFirst[inst] = instSeen{gid: g, seq: s.gseq[g], n: len(s.instFirst)}
+		}
+	}
 	s.events = append(s.events, Event{Step: s.Step, gid: g, Seq: s.gseq[g], At: now, Kind: kind, inst: inst, Oid: oid, Args: a})
 	s.mu.Unlock()
 }
@@ -254,7 +269,9 @@ func (s *Sched) resolve() {
 	type grp struct {
 		inst interface{}
 		keys []string
+		minG int64
 	}
+	ambiguous := false
 	var groups []*grp
 	byInst := map[interface{}]*grp{}
 	for _, p := range fresh {
@@ -269,9 +286,12 @@ func (s *Sched) resolve() {
 		}
 		g := byInst[p.inst]
 		if g == nil {
-			g = &grp{inst: p.inst}
+			g = &grp{inst: p.inst, minG: p.gid}
 			byInst[p.inst] = g
 			groups = append(groups, g)
+		}
+		if p.gid < g.minG {
+			g.minG = p.gid
 		}
 		g.keys = append(g.keys, fmt.Sprintf("%s/%d", p.point, p.n))
 	}
@@ -287,9 +307,33 @@ func (s *Sched) resolve() {
 			a := typeName(groups[i-1].inst) + "|" + strings.Join(groups[i-1].keys, ",")
 			b := typeName(g.inst) + "|" + strings.Join(g.keys, ",")
 			if a == b {
-				harnessf("ambiguous instance order: two new %s instances first seen in one interval (%s)", typeName(g.inst), b)
+				ambiguous = true
 			}
 		}
+	}
+	if ambiguous {
+		// Several new instances of one type in one interval: order them by
+		// their creation events (creator's logical name, then the
+		// creator's own event sequence), never by arrival or goroutine id.
+		for _, g := range groups {
+			if _, ok := s.instFirst[g.inst]; !ok {
+				harnessf("ambiguous instance order: new %s instances without creation events in one interval", typeName(g.inst))
+			}
+		}
+		sort.SliceStable(groups, func(i, j int) bool {
+			ti, tj := typeName(groups[i].inst), typeName(groups[j].inst)
+			if ti != tj {
+				return ti < tj
+			}
+			a, b := s.instFirst[groups[i].inst], s.instFirst[groups[j].inst]
+			an, bn := s.gname[a.gid], s.gname[b.gid]
+			if an != bn {
+				return an < bn
+			}
+			return a.seq < b.seq
+		})
+	}
+	for _, g := range groups {
 		tn := typeName(g.inst)
 		s.instName[g.inst] = fmt.Sprintf("%s%d", tn, s.instCnt[tn])
 		s.instCnt[tn]++
